@@ -7,7 +7,7 @@
    (Model/EvmSpec.v `spec_ops`: Yellow Paper, EIP-145, EIP-7939) defines.  `in_range x` is
    0 <= x < 2^256; the first argument is the top of the stack.
    MACHINE LEVEL: at the end of the file. *)
-From Coq Require Import ZArith List Bool Zpow_facts.
+From Coq Require Import ZArith List Bool Zpow_facts Uint63.
 From VF Require Import Model.EvmSpec Model.EvmWord Model.EvmWordCorr Proofs.EvmWord_lemmas.
 Import ListNotations.
 Open Scope Z_scope.
